@@ -127,6 +127,22 @@ def run(prog, rep):
         r = canon(Tracer(gg[0].body).local(0))
         rep.check(re.match(r"^Option::or_else\(HashMap::get\(&\*arg:self\.values, &\*arg:name\), get::\{closure#0\}\{&\*?arg:self, &\*?arg:name\}\)$", r) is not None, "C16.N", "Globals::get", gg[0].loc(), "own map, else context", "Globals::get is `%s`" % r[:140])
     # globals first, guards before local writes
+    # nested(): the new set always keeps the given set as its context
+    nf = [f for f in prog.fns.values() if f.name == "nested" and f.self_path == "tsg::variables::Globals"]
+    if len(nf) == 1:
+        f = nf[0]
+        tr = Tracer(f.body)
+        aggs = [st for b in sorted(f.body.reachable()) for st in f.body.blocks[b]["stmts"] if st["k"] == "assign" and st["rv"]["k"] == "aggregate" and st["rv"].get("adt") == "tsg::variables::Globals"]
+        ok = len(aggs) == 1
+        cv = ""
+        if ok:
+            d = dict(zip(aggs[0]["rv"]["fields"], aggs[0]["rv"]["ops"]))
+            cv = canon(tr.operand(d["context"]))
+            ok = re.match(r"^option::Option::Some\{(cast\()?&?\*?arg:context\)?\}$", cv) is not None and not [1 for b in sorted(f.body.reachable()) if f.body.term(b)["k"] == "switch"]
+        rep.check(ok, "C16.N", "Globals::nested :: context kept", f.loc(), "Globals { context: Some(context), values: {} } on every path",
+                  "a nested variable set does not always keep the set it was nested in as its context (%s): bindings further out become invisible" % cv[:100])
+    else:
+        rep.violation("C16.N", "anchor-lost:Globals::nested", "", "not found")
     rep.rule("C16.L", "unscoped lookups consult the globals first; local add/set is dominated by the guard rejecting global names (strict, lazy, checker)")
     look = [("tsg::ast::UnscopedVariable", "get", "strict"), ("tsg::ast::UnscopedVariable", "evaluate_lazy", "lazy"), ("tsg::ast::UnscopedVariable", "check_get", "checker")]
     for ty, nm, mode in look:
@@ -205,6 +221,12 @@ def run(prog, rep):
     else:
         rep.violation("C16.P", "anchor-lost:parse_global", "", "not found")
     # read-only caller set
+    # a global cannot be redeclared: the loader registers every declaration in one map and a second one is an error
+    from . import C06
+    from ..lib.report import Filtered
+    nb = len(rep.items)
+    C06.run(prog, Filtered(rep, lambda rule, key: rule == "C06.G" and key.endswith(":: duplicate globals")))
+    rep.floor("C06.G", len(rep.items) - nb, 1, "duplicate-global check of the loader")
     rep.rule("C16.R", "the caller's variable set is held by shared reference and contains no interior mutability")
     cfg = prog.adts.get("tsg::execution::ExecutionConfig")
     gt = None
